@@ -413,7 +413,48 @@ def install_points_tables():
     from dv import sched, simkernel as sk
     mods = sk.load_node()
     N = mods["node"].Node
-    return sched.install({N.route_answer: None})
+    return sched.install({N.route_answer: None, N._receive_app_request: r"_peer_waiting_answer|waiting|receive_request",
+                          N.remove_peer_connection: r"_peer_waiting_answer|del self",
+                          N._handle_connections: r"\.recv\(|add_in_bytes|close_connection_socket\("})
+
+
+def request_vs_eof(decisions):
+    """A request and the EOF of its connection reach the node in the same instant: the reader thread handles the
+    request while the I/O thread removes the connection.  Afterwards the peer reconnects and the application
+    submits its answer (if it was handed the request at all): it must not reach the new connection."""
+    from dv import sched
+    w = W.NodeWorld({"peers": [{"name": "peer1.example", "ip": ["10.1.1.1"]}],
+                     "apps": [{"app_id": 4, "auth": True, "peers": [0], "kind": "basic", "handler": "hold"}],
+                     "node_timers": {"idle": 5000, "dwa": 50, "cer": 50, "cea": 50, "wakeup": 3}})
+    try:
+        NotRoutable = w.mods["node"].NotRoutable
+        w.start()
+        c = w.handshake_in("peer1.example", auth=[4], ip="10.1.1.1", hbh=0x100)
+        ex = sched.Explorer(decisions)
+        sched.attach(w.k, ex)
+        w.feed_msg(c, {"k": "REQ", "host": "peer1.example", "hbh": 0xa1, "e2e": 0x5101}, run=False)
+        c.peer_closed = True
+        c.remote.close()
+        ex.armed = True
+        w.k.run()
+        ex.armed = False
+        w.advance(1)
+        problems = []
+        c2 = w.handshake_in("peer1.example", auth=[4], ip="10.1.1.1", hbh=0x110)
+        recs = [r for r in w.requests_seen if r["e2e"] == 0x5101]
+        if recs:
+            call = w.submit_answer(recs[0])
+            box = call["box"]
+            on_new = [f for f in c2.refresh() if not f.is_request and f.code == 272 and f.h["e2e"] == 0x5101]
+            if on_new:
+                problems.append(("answer-on-other-connection", "the answer to a request of the lost connection was written to the peer's new connection"))
+            elif not isinstance(box["exc"], NotRoutable):
+                problems.append(("no-not-routable", f"requester connection gone, submission gave {box['exc']!r}"))
+        for sig, d in W.monitor_threads(w):
+            problems.append((f"thread-died/{sig}", d))
+        return ex.trace, problems, bool(recs)
+    finally:
+        w.close()
 
 
 def submit_vs_table_change(decisions, other_event="loss"):
@@ -466,6 +507,22 @@ def schedule_part_tables(rec, shard, nshards, thorough):
     from dv import sched
     from dv.common import fp
     install_points_tables()
+    holder_ = {}
+
+    def run_eof(dec):
+        tr, problems, seen_ = request_vs_eof(dec)
+        holder_["last"] = (problems, seen_)
+        return tr
+    n_ = 0
+    for dec, trace in sched.enumerate_schedules(run_eof, 3 if thorough else 2, shard, nshards):
+        case = {"request_vs_eof": True, "schedule": {str(i): c for i, c in sorted(dec.items())}}
+        for k_, detail in holder_["last"][0]:
+            rec.violation(f"C09/request-vs-eof/{k_}", case, detail)
+        n_ += 1
+        rec.case(fp("sched-eof", tuple(sorted(dec.items()))) if dec else None,
+                 ["schedule-exploration", "request-vs-eof", "request-vs-eof:" + ("delivered" if holder_["last"][1] else "not-delivered")],
+                 sample=lambda: dict(case, choice_points=len(trace)))
+    rec.extra["request_vs_eof_schedules"] = rec.extra.get("request_vs_eof_schedules", 0) + n_
     for other in ("loss", "first-request"):
         holder = {}
 
@@ -585,7 +642,7 @@ def run(tier, scale=1.0):
     rec = Recorder(PID)
     for d in hyp.pool_run(shard_main, (tier, scale)):
         rec.merge(d)
-    required = {"equal-id-pair-two-connections": 1, "table-change:loss": 1, "table-change:first-request": 1, "schedule-exploration": 1, "deviations:2": 1, "npeers:3": 1, "app:threading": 1, "fault:eof": 1, "fault:reset": 1, "fault:dpr": 1,
+    required = {"request-vs-eof": 1, "equal-id-pair-two-connections": 1, "table-change:loss": 1, "table-change:first-request": 1, "schedule-exploration": 1, "deviations:2": 1, "npeers:3": 1, "app:threading": 1, "fault:eof": 1, "fault:reset": 1, "fault:dpr": 1,
                 "fault:reconnect": 1, "fault:reconnect-overlap": 1, "lost-while-handling": 1, "watchdog-outstanding": 1, "dwa-after-dpr": 1, "handler-raised-then-submit": 1, "direct-send-message": 1, "out0:True": 1, "double-submission": 1, "equal-hbh-two-conns": 1, "reqs:4": 1}
     return finish(rec, tier=tier, level=LEVEL, rule=RULE, assumptions=ASSUME, t0=t0,
                   required_classes=required)
